@@ -52,9 +52,9 @@ Definition bitpack_32 (w : nat) (vs : list N) : list N :=
   match w with O => [] | _ => pack_n (length vs) w vs end.
 
 (** carquet_bitunpack_32(input, count, bit_width, values) -> values, bytes consumed.
-    The tail group is unpacked with the full-group routine: it READS bit_width bytes although only
-    packed_size(count - i, bit_width) are accounted for (checked read: Fault OobRead when the input
-    is shorter - DESIGN F8). *)
+    Whole groups read bit_width bytes each.  The tail group (count mod 8 values) reads only
+    packed_size(tail, bit_width) bytes, copied into a zero-filled 32-byte scratch group that is then
+    unpacked (the repair of DESIGN F8; before it the tail read a whole group past the input). *)
 Fixpoint unpack_n (fuel : nat) (w : nat) (input : list N) (count : nat) : res (list N * nat) :=
   match fuel with
   | O => Ok ([], O)
@@ -69,10 +69,13 @@ Fixpoint unpack_n (fuel : nat) (w : nat) (input : list N) (count : nat) : res (l
       | Err e => Err e | Fault x => Fault x
       end
     else
-      match unpack8 w input with
-      | Ok g => Ok (firstn count g, packed_size count w)
-      | Err e => Err e | Fault x => Fault x
-      end
+      let tail_bytes := Nat.min (packed_size count w) 32 in
+      if Nat.ltb (length input) tail_bytes then Fault OobRead
+      else
+        match unpack8 w (firstn tail_bytes input ++ repeat 0 (32 - tail_bytes)) with
+        | Ok g => Ok (firstn count g, tail_bytes)
+        | Err e => Err e | Fault x => Fault x
+        end
   end.
 Definition bitunpack_32 (w : nat) (input : list N) (count : nat) : res (list N * nat) :=
   match w with O => Ok (repeat 0 count, O) | _ => unpack_n (S count) w input count end.
